@@ -482,8 +482,8 @@ def jobs(tier, seed):
                        params=dict(k=k, lattice=lat, sites=ss, dims=[1, 2, 3], n_float=2, total_time=7e-12)))
     for T, A, ss in oc:
         js.append(dict(name=f'occupancy_T{T}_A{A}_{ss}', fn='occupancy_job', params=dict(T=T, A=A, sites=ss, lattice='cubic5')))
-    for T, A in ([(3, 1), (4, 1)] if tier == 'quick' else [(3, 1), (4, 1), (5, 1), (3, 2)]):
+    for T, A in ([(3, 1), (4, 1)] if tier == 'quick' else [(3, 1), (4, 1), (5, 1)]):
         js.append(dict(name=f'graph_T{T}_A{A}', fn='graph_job', params=dict(T=T, A=A)))
-    for T, A, n in ([(4, 1, 2), (5, 1, 2)] if tier == 'quick' else [(5, 1, 2), (6, 1, 2), (7, 1, 2), (6, 1, 3), (5, 2, 2)]):
+    for T, A, n in ([(4, 1, 2), (5, 1, 2)] if tier == 'quick' else [(4, 1, 2), (5, 1, 2), (6, 1, 2), (6, 1, 3)]):
         js.append(dict(name=f'rates_T{T}_A{A}_p{n}', fn='rates_job', params=dict(T=T, A=A, n_parts=n)))
     return js
